@@ -239,7 +239,8 @@ static const char *const defs[] = { "block.", "block.mpegts.", "block.h264.", "v
  * with the kind of buffer that goes with each */
 enum { K_BLOCK = 0, K_PIC, K_S16, K_S32, K_F32P, K_VOID, K_S24BLOCK, K_PIC422, K__N };
 static int cur_kind;                   /* of the flow definition accepted last */
-static uint64_t alloc_which;           /* kind of flow definition a flow-allocated pipe was given */
+static uint64_t alloc_which;
+static bool incomplete_alloc_def;           /* kind of flow definition a flow-allocated pipe was given */
 static struct ubuf_mgr *kind_mgr[K__N];
 
 
@@ -682,6 +683,7 @@ static void env_setup(void)
         ubuf_sound_mem_mgr_add_plane(kind_mgr[K_F32P], "r");
     }
     cur_kind = K_BLOCK;
+    incomplete_alloc_def = false;
     uclock = uclock_sim_alloc();
     uprobe_init(&root, catch, NULL);
     urefcount_init(&root_refcount, noop_free);
@@ -927,9 +929,13 @@ static struct uref *typed_def(uint64_t which, uint64_t x, int *kind_p)
             uref_pic_flow_add_plane(fd, 1, 1, 1, "y8");
             uref_pic_flow_add_plane(fd, 2, 2, 1, "u8");
             uref_pic_flow_add_plane(fd, 2, 2, 1, "v8");
-            uref_pic_flow_set_hsize(fd, 32);
-            uref_pic_flow_set_vsize(fd, 16);
-            uref_pic_flow_set_fps(fd, fps);
+            /* (sometimes without its rate or its size: a definition these pipes have to refuse) */
+            if (!(x & 64)) {
+                uref_pic_flow_set_hsize(fd, 32);
+                uref_pic_flow_set_vsize(fd, 16);
+            }
+            if (!(x & 32) || (x & 64))
+                uref_pic_flow_set_fps(fd, fps);
             if (x & 16) uref_pic_set_progressive(fd);
         }
         *kind_p = K_PIC;
@@ -1121,7 +1127,7 @@ static int option_access(int w, bool set, uint64_t *v, const char **what)
     return UBASE_ERR_UNHANDLED;
 }
 
-static void do_op(const struct sim_op *op)
+static void do_op_inner(const struct sim_op *op)
 {
     sim_ev(op_name(op->code), (uint64_t)op->a[0], (uint64_t)op->a[1]);
     if (ut == NULL)
@@ -1540,6 +1546,18 @@ static void do_op(const struct sim_op *op)
     }
 }
 
+/* (single-fault sweep over the second batch: like the sampled faults, the swept
+ * one never falls inside input or a loop run of these pipes) */
+static void do_op(const struct sim_op *op)
+{
+    bool shield = sweep_k && (types[type].flags & F_TYPED) && (op->code == OP_INPUT || op->code == OP_RUN);
+    if (shield)
+        sim_alloc_suspend();
+    do_op_inner(op);
+    if (shield)
+        sim_alloc_resume();
+}
+
 /* C12, "every still-registered request is re-issued to the new output", for the
  * requests that were registered while the pipe had no output (or no inner pipe)
  * and were therefore never seen travelling: at the end of the history the
@@ -1684,7 +1702,15 @@ static bool run_once(void)
                 if (!strcmp(hints[i].name, types[type].name))
                     which = (which & ~(uint64_t)7) | (uint64_t)hints[i].which;
         alloc_which = which & 7;
+        /* (allocated with a picture definition without its size: audio_bar /
+         * audio_graph keep what they are given while they wait for a downstream
+         * pipe to say how large the picture is; nobody will: incomplete) */
+        incomplete_alloc_def = (which & 512) != 0 && (which & 7) % NTYPED % 7 == 0;
+        if (sweep_k)
+            sim_alloc_suspend();
         struct uref *fd = typed_def(which & 7, (which >> 3) | ((which & 64) ? 16 : 0), &kind);
+        if (sweep_k)
+            sim_alloc_resume();
         ut = fd != NULL ? upipe_flow_alloc(mgr, uprobe_use(chain), fd) : NULL;
         uref_free(fd);
     } else
@@ -1726,8 +1752,12 @@ static bool run_once(void)
             upipe_release(p);
         }
         /* pipes that keep themselves alive until their pumps are done */
+        if (sweep_k && (types[type].flags & F_TYPED))
+            sim_alloc_suspend();
         upump_sim_mgr_set_budget(upump_mgr, 64);
         upump_mgr_run(upump_mgr, NULL);
+        if (sweep_k && (types[type].flags & F_TYPED))
+            sim_alloc_resume();
         bool complete_env = (provide() & 31) == 31;
         if (sweep_k && sim_alloc_failed())
             provider_failed = true;     /* (what failed may have been the answer to a request) */
@@ -1735,7 +1765,7 @@ static bool run_once(void)
             sim_violation(V_READY_ORDER, "%s threw ready %u times", types[type].name, ut_ready);
         else if (checking() && ut_dead > 1)
             sim_violation(V_DEAD, "%s threw dead %u times", types[type].name, ut_dead);
-        else if ((!complete_env || provider_failed) && ut_dead == 0) {
+        else if ((!complete_env || provider_failed || incomplete_alloc_def) && ut_dead == 0) {
             /* a pipe may keep itself (and what it holds) alive while it waits
              * for a manager, a clock or an event loop nobody provides: the
              * application is incomplete, nothing is decided about leaks */
@@ -1803,7 +1833,7 @@ static void run(const char *pr, const struct sim_plan *pl)
     if (((uint64_t)plan->cfg[CFG_FAULTSWEEP] & 1) && !twin_run && !(types[type].flags & F_TYPED)) {
         /* fault-free first, then one execution per allocation that can fail */
         bool swept = false;
-        static const char *const no_error_path[] = { "m3u_reader", "ts_align", NULL };
+        static const char *const no_error_path[] = { "m3u_reader", "ts_align", "row_split", "row_join", NULL };
         for (int i = 0; no_error_path[i] != NULL; i++)
             if (!strcmp(types[type].name, no_error_path[i]))
                 swept = true;
@@ -1867,7 +1897,7 @@ static void gen(const char *pr, struct sim_rng *r, struct sim_plan *p)
     p->cfg[CFG_POOL] = sim_rng_below(r, 10);
     p->cfg[CFG_FAULTS] = sim_rng_chance(r, 1, 3);
     p->cfg[CFG_PROVIDE] = sim_rng_chance(r, 9, 10) ? 31 : sim_rng_below(r, 32);
-    p->cfg[CFG_ALLOCDEF] = sim_rng_below(r, 128);
+    p->cfg[CFG_ALLOCDEF] = sim_rng_below(r, 128) | (sim_rng_chance(r, 1, 6) ? (sim_rng_chance(r, 1, 2) ? 256 : 512) : 0);
     p->cfg[CFG_RELAY] = sim_rng_chance(r, 1, 3);
     int n = 3 + (int)sim_rng_below(r, 24);
     if ((p->cfg[CFG_PROP] == 1 || p->cfg[CFG_PROP] == 4) && !p->cfg[CFG_TWIN] && sim_rng_chance(r, 1, 8)) {
